@@ -583,3 +583,8 @@ mod test {
         });
     }
 }
+
+#[cfg(kani)]
+mod verif_kani {
+    include!(concat!(env!("IPA_VERIF_DIR"), "/kani/unordered_receiver.rs"));
+}
